@@ -368,6 +368,11 @@ impl<R: Read> ZeroCopyReader<R> {
     /// Ensure the buffer has at least `len` bytes available
     fn ensure_buffered(&mut self, len: usize) -> Result<()> {
         while self.buffer.available() < len && !self.eof {
+            if self.buffer.available() == self.buffer.capacity() {
+                // The buffer is full of unread data: a request larger than the
+                // capacity cannot be buffered, which is not the end of the stream.
+                break;
+            }
             let bytes_read = self.buffer.fill_from(&mut self.inner)
                 .map_err(|e| ZiporaError::io_error(format!("Fill buffer failed: {}", e)))?;
             if bytes_read == 0 {
